@@ -354,4 +354,181 @@ theorem rotr_eq (w t : Nat) (s : Int) (hw : 0 < w) (hdvd : (w : Int) ∣ 2^32) (
     rw [Nat.or_comm, h, Nat.add_comm]
 
 
+/-! ## safe comparisons -/
+
+/-- every value of `A` is a value of `C` -/
+def ITy.sub (A C : ITy) : Prop := C.min ≤ A.min ∧ A.max ≤ C.max
+
+theorem sub_inR {A C : ITy} (h : A.sub C) (x : Int) (hx : A.inR x = true) : C.inR x = true := by
+  rw [inR_iff] at *; unfold ITy.sub at h; omega
+
+theorem sub_refl (A : ITy) : A.sub A := ⟨Int.le_refl _, Int.le_refl _⟩
+
+theorem sub_ss (a b : Nat) (h : a ≤ b) : ITy.sub ⟨a, true⟩ ⟨b, true⟩ := by
+  have := pow_mono (a-1) (b-1) (by omega)
+  unfold ITy.sub ITy.min ITy.max; simp; omega
+
+theorem sub_uu (a b : Nat) (h : a ≤ b) : ITy.sub ⟨a, false⟩ ⟨b, false⟩ := by
+  have := pow_mono a b h
+  unfold ITy.sub ITy.min ITy.max; simp; omega
+
+theorem sub_us (a b : Nat) (h : a < b) : ITy.sub ⟨a, false⟩ ⟨b, true⟩ := by
+  have := pow_mono a (b-1) (by omega)
+  have hp : (0:Int) < 2^(b-1) := Int.pow_pos (by decide)
+  unfold ITy.sub ITy.min ITy.max; simp; omega
+
+/-- with equal signedness the usual arithmetic conversions preserve both values -/
+theorem usual_sub (A B : ITy) (hs : A.sg = B.sg) :
+    A.sub (ITy.usual A B) ∧ B.sub (ITy.usual A B) ∧ 1 ≤ (ITy.usual A B).w := by
+  obtain ⟨a, sa⟩ := A
+  obtain ⟨b, sb⟩ := B
+  simp only [] at hs; subst hs
+  unfold ITy.usual ITy.promote
+  cases sa
+  · by_cases ha : a < 32 <;> by_cases hb : b < 32 <;> simp [ha, hb]
+    · exact ⟨sub_us a 32 ha, sub_us b 32 hb⟩
+    · have hb' : 32 ≤ b := by omega
+      simp [hb']
+      exact ⟨sub_uu a b (by omega), sub_refl _, by omega⟩
+    · have ha' : 32 ≤ a := by omega
+      simp [ha']
+      exact ⟨sub_refl _, sub_uu b a (by omega), by omega⟩
+    · by_cases hab : b ≤ a <;> simp [hab]
+      · exact ⟨sub_refl _, sub_uu b a hab, by omega⟩
+      · exact ⟨sub_uu a b (by omega), sub_refl _, by omega⟩
+  · by_cases ha : a < 32 <;> by_cases hb : b < 32 <;> simp [ha, hb]
+    · exact ⟨sub_ss a 32 (by omega), sub_ss b 32 (by omega)⟩
+    · have : ¬ b ≤ 32 ∨ b = 32 := by omega
+      by_cases hb2 : b ≤ 32 <;> simp [hb2]
+      · have : b = 32 := by omega
+        subst this; exact ⟨sub_ss a 32 (by omega), sub_refl _⟩
+      · exact ⟨sub_ss a b (by omega), sub_refl _, by omega⟩
+    · by_cases ha2 : 32 ≤ a <;> simp [ha2]
+      · exact ⟨sub_refl _, sub_ss b a (by omega), by omega⟩
+      · omega
+    · by_cases hab : b ≤ a <;> simp [hab]
+      · exact ⟨sub_refl _, sub_ss b a hab, by omega⟩
+      · exact ⟨sub_ss a b (by omega), sub_refl _, by omega⟩
+
+theorem builtinLt_eq (A B : ITy) (hs : A.sg = B.sg) (a b : Int)
+    (ha : A.inR a = true) (hb : B.inR b = true) : builtinLt A B a b = decide (a < b) := by
+  obtain ⟨hA, hB, hw⟩ := usual_sub A B hs
+  unfold builtinLt
+  simp only [conv_of_inR _ hw a (sub_inR hA a ha), conv_of_inR _ hw b (sub_inR hB b hb)]
+
+theorem builtinEq_eq (A B : ITy) (hs : A.sg = B.sg) (a b : Int)
+    (ha : A.inR a = true) (hb : B.inR b = true) : builtinEq A B a b = decide (a = b) := by
+  obtain ⟨hA, hB, hw⟩ := usual_sub A B hs
+  unfold builtinEq
+  simp only [conv_of_inR _ hw a (sub_inR hA a ha), conv_of_inR _ hw b (sub_inR hB b hb)]
+
+/-- a non-negative value of a signed type is a value of the corresponding unsigned type -/
+theorem uns_inR (T : ITy) (hw : 1 ≤ T.w) (t : Int) (ht : T.inR t = true) (h0 : 0 ≤ t) : T.uns.inR t = true := by
+  obtain ⟨w, sg⟩ := T
+  have h2 := two_pow_split w hw
+  have hp : (0:Int) < 2^(w-1) := Int.pow_pos (by decide)
+  rw [inR_iff] at *
+  cases sg <;> simp only [ITy.uns, ITy.min, ITy.max] at * <;> simp at * <;> omega
+
+theorem nonneg_of_unsigned (U : ITy) (hs : U.sg = false) (u : Int) (hu : U.inR u = true) : 0 ≤ u := by
+  rw [inR_iff] at hu; unfold ITy.min at hu; simp [hs] at hu; exact hu.1
+
+theorem cmpLess_eq (T U : ITy) (hT : 1 ≤ T.w) (hU : 1 ≤ U.w) (t u : Int)
+    (ht : T.inR t = true) (hu : U.inR u = true) : cmpLess T U t u = decide (t < u) := by
+  unfold cmpLess
+  by_cases hs : T.sg = U.sg
+  · simp only [hs, beq_self_eq_true, if_true]
+    exact builtinLt_eq T U hs t u ht hu
+  · have hne : (T.sg == U.sg) = false := by simp [hs]
+    simp only [hne, Bool.false_eq_true, if_false]
+    cases hTs : T.sg
+    · -- T unsigned, U signed
+      have hUs : U.sg = true := by cases h : U.sg <;> simp_all
+      have ht0 := nonneg_of_unsigned T hTs t ht
+      simp only [Bool.false_eq_true, if_false]
+      by_cases hu0 : u < 0
+      · simp only [hu0, if_true]; symm; simp; omega
+      · simp only [hu0, if_false]
+        have huu := uns_inR U hU u hu (by omega)
+        rw [conv_of_inR U.uns hU u huu]
+        exact builtinLt_eq T U.uns (by simp [ITy.uns, hTs]) t u ht huu
+    · have hUs : U.sg = false := by cases h : U.sg <;> simp_all
+      have hu0 := nonneg_of_unsigned U hUs u hu
+      simp only [if_true]
+      by_cases ht0 : t < 0
+      · simp only [ht0, if_true]; symm; simp; omega
+      · simp only [ht0, if_false]
+        have htu := uns_inR T hT t ht (by omega)
+        rw [conv_of_inR T.uns hT t htu]
+        exact builtinLt_eq T.uns U (by simp [ITy.uns, hUs]) t u htu hu
+
+theorem cmpEqual_eq (T U : ITy) (hT : 1 ≤ T.w) (hU : 1 ≤ U.w) (t u : Int)
+    (ht : T.inR t = true) (hu : U.inR u = true) : cmpEqual T U t u = decide (t = u) := by
+  unfold cmpEqual
+  by_cases hs : T.sg = U.sg
+  · simp only [hs, beq_self_eq_true, if_true]
+    exact builtinEq_eq T U hs t u ht hu
+  · have hne : (T.sg == U.sg) = false := by simp [hs]
+    simp only [hne, Bool.false_eq_true, if_false]
+    cases hTs : T.sg
+    · have hUs : U.sg = true := by cases h : U.sg <;> simp_all
+      have ht0 := nonneg_of_unsigned T hTs t ht
+      simp only [Bool.false_eq_true, if_false]
+      by_cases hu0 : u < 0
+      · simp only [hu0, if_true]; symm; simp; omega
+      · simp only [hu0, if_false]
+        have huu := uns_inR U hU u hu (by omega)
+        rw [conv_of_inR U.uns hU u huu]
+        exact builtinEq_eq T U.uns (by simp [ITy.uns, hTs]) t u ht huu
+    · have hUs : U.sg = false := by cases h : U.sg <;> simp_all
+      have hu0 := nonneg_of_unsigned U hUs u hu
+      simp only [if_true]
+      by_cases ht0 : t < 0
+      · simp only [ht0, if_true]; symm; simp; omega
+      · simp only [ht0, if_false]
+        have htu := uns_inR T hT t ht (by omega)
+        rw [conv_of_inR T.uns hT t htu]
+        exact builtinEq_eq T.uns U (by simp [ITy.uns, hUs]) t u htu hu
+
+theorem cmpNotEqual_eq (T U : ITy) (hT : 1 ≤ T.w) (hU : 1 ≤ U.w) (t u : Int)
+    (ht : T.inR t = true) (hu : U.inR u = true) : cmpNotEqual T U t u = decide (t ≠ u) := by
+  unfold cmpNotEqual; rw [cmpEqual_eq T U hT hU t u ht hu]; simp
+
+theorem cmpGreater_eq (T U : ITy) (hT : 1 ≤ T.w) (hU : 1 ≤ U.w) (t u : Int)
+    (ht : T.inR t = true) (hu : U.inR u = true) : cmpGreater T U t u = decide (t > u) := by
+  unfold cmpGreater; rw [cmpLess_eq U T hU hT u t hu ht]
+
+theorem cmpLessEqual_eq (T U : ITy) (hT : 1 ≤ T.w) (hU : 1 ≤ U.w) (t u : Int)
+    (ht : T.inR t = true) (hu : U.inR u = true) : cmpLessEqual T U t u = decide (t ≤ u) := by
+  unfold cmpLessEqual; rw [cmpGreater_eq T U hT hU t u ht hu]
+  by_cases h : t ≤ u <;> simp [h] <;> omega
+
+theorem cmpGreaterEqual_eq (T U : ITy) (hT : 1 ≤ T.w) (hU : 1 ≤ U.w) (t u : Int)
+    (ht : T.inR t = true) (hu : U.inR u = true) : cmpGreaterEqual T U t u = decide (t ≥ u) := by
+  unfold cmpGreaterEqual; rw [cmpLess_eq T U hT hU t u ht hu]
+  by_cases h : t ≥ u <;> simp [h] <;> omega
+
+theorem inR_min (t : ITy) : t.inR t.min = true := by
+  have := min_max_zero t; rw [inR_iff]; omega
+theorem inR_max (t : ITy) : t.inR t.max = true := by
+  have := min_max_zero t; rw [inR_iff]; omega
+
+theorem inRange_eq (R T : ITy) (hR : 1 ≤ R.w) (hT : 1 ≤ T.w) (t : Int) (ht : T.inR t = true) :
+    inRange R T t = R.inR t := by
+  unfold inRange
+  rw [cmpGreaterEqual_eq T R hT hR t R.min ht (inR_min R), cmpLessEqual_eq T R hT hR t R.max ht (inR_max R)]
+  unfold ITy.inR
+  by_cases h1 : R.min ≤ t <;> by_cases h2 : t ≤ R.max <;> simp [h1, h2] <;> omega
+
+theorem saturateCast_eq (To From : ITy) (hTo : 1 ≤ To.w) (hFrom : 1 ≤ From.w) (x : Int) (hx : From.inR x = true) :
+    saturateCast To From x = .ok (Spec.clampTo To.min To.max x) := by
+  unfold saturateCast Spec.clampTo
+  rw [cmpLess_eq From To hFrom hTo x To.min hx (inR_min To), cmpGreater_eq From To hFrom hTo x To.max hx (inR_max To)]
+  by_cases h1 : x < To.min
+  · simp [h1]
+  · by_cases h2 : x > To.max
+    · simp [h1, h2]
+    · simp only [h1, h2, decide_false, Bool.false_eq_true, if_false]
+      rw [conv_of_inR To hTo x (by rw [inR_iff]; omega)]
+
 end Tetl.C14
